@@ -1,11 +1,14 @@
 package sim
 
 import (
+	"bytes"
+	"encoding/hex"
 	"encoding/json"
 	"fmt"
 	"reflect"
 
 	abci "github.com/cometbft/cometbft/abci/types"
+	cmtproto "github.com/cometbft/cometbft/proto/tendermint/types"
 	"github.com/tellor-io/layer/app"
 )
 
@@ -235,6 +238,7 @@ func (p *ProposalLab) onProposal(c *Chain, req *abci.RequestProcessProposal, ec 
 			p.st.Count("c17.block-height-field-not-checked")
 		}
 	}
+	p.byzantineCommit(c, req, ec, orig)
 	// the unchanged proposal must still be accepted after all that (same state, same answer)
 	st, err := p.process(c, req, req.Txs[0])
 	if err != nil || st != abci.ResponseProcessProposal_ACCEPT {
@@ -246,6 +250,141 @@ func (p *ProposalLab) onProposal(c *Chain, req *abci.RequestProcessProposal, ec 
 	}
 	p.st.Count("c17.extendvote.evals")
 	p.panics(c, "extend-vote")
+}
+
+// byzantineCommit (C17, "bridge data reaches state only as signed"): a proposer hands the application a last commit
+// in which a validator that did NOT commit (nil / absent vote, no extension signature) nevertheless carries a vote
+// extension with bridge data. Two proposals are built from it - by the application's own PrepareProposal and by
+// appending that validator's data to the honest lists by hand - and given to ProcessProposal. An accepted proposal
+// may only list bridge data of validators whose vote in the injected commit has the commit flag.
+func (p *ProposalLab) byzantineCommit(c *Chain, req *abci.RequestProcessProposal, ec abci.ExtendedCommitInfo, orig app.VoteExtTx) {
+	if len(ec.Votes) < 2 {
+		return
+	}
+	// the victim: a vote that is already nil/absent, else the smallest validator is turned into a nil vote
+	// (the others still hold more than two thirds only if it is small enough)
+	var total, minPow int64
+	idx := -1
+	for i, v := range ec.Votes {
+		total += v.Validator.Power
+		if v.BlockIdFlag != cmtproto.BlockIDFlagCommit {
+			idx = i
+		}
+	}
+	if idx < 0 {
+		for i, v := range ec.Votes {
+			if idx < 0 || v.Validator.Power < minPow {
+				idx, minPow = i, v.Validator.Power
+			}
+		}
+		var rest int64
+		for i, v := range ec.Votes {
+			if i != idx && v.BlockIdFlag == cmtproto.BlockIDFlagCommit {
+				rest += v.Validator.Power
+			}
+		}
+		if rest*3 <= total*2 {
+			return
+		}
+	}
+	var keys *ValKeys
+	for _, k := range c.W.Vals {
+		if bytes.Equal(k.ConsAdr, ec.Votes[idx].Validator.Address) {
+			keys = k
+		}
+	}
+	if keys == nil {
+		return
+	}
+	// what the victim "sent": the extension an honest node would sign now, or crafted data of every kind
+	ctx := c.CommittedCtx()
+	ext := app.BridgeVoteExtension{}
+	if honest, ok := c.PendingHonest[string(keys.ConsAdr)]; ok && len(honest) > 0 && p.r.Chance(0.5) {
+		_ = json.Unmarshal(honest, &ext)
+	}
+	a := sha256sum([]byte("TellorLayer: Initial bridge signature A"))
+	b := sha256sum([]byte("TellorLayer: Initial bridge signature B"))
+	if len(ext.InitialSignature.SignatureA) == 0 {
+		ext.InitialSignature = app.InitialSignature{SignatureA: keys.BridgeSign(a), SignatureB: keys.BridgeSign(b)}
+	}
+	if len(ext.ValsetSignature.Signature) == 0 {
+		if idxc, err := c.App.BridgeKeeper.LatestCheckpointIdx.Get(ctx); err == nil {
+			if ts, err := c.App.BridgeKeeper.ValidatorCheckpointIdxMap.Get(ctx, idxc.Index); err == nil {
+				ext.ValsetSignature = app.BridgeValsetSignature{Signature: randBytes(p.r, 64), Timestamp: ts.Timestamp}
+			}
+		}
+	}
+	if len(ext.OracleAttestations) == 0 {
+		ext.OracleAttestations = []app.OracleAttestation{{Snapshot: randBytes(p.r, 32), Attestation: randBytes(p.r, 64)}}
+	}
+	extBz, _ := json.Marshal(ext)
+	ec2 := abci.ExtendedCommitInfo{Round: ec.Round, Votes: append([]abci.ExtendedVoteInfo{}, ec.Votes...)}
+	flag := []cmtproto.BlockIDFlag{cmtproto.BlockIDFlagNil, cmtproto.BlockIDFlagAbsent}[p.r.Pick(2)]
+	ec2.Votes[idx] = abci.ExtendedVoteInfo{Validator: ec.Votes[idx].Validator, BlockIdFlag: flag, VoteExtension: extBz}
+	victim := keys.ValAdr.String()
+	judge := func(how string, first []byte, st abci.ResponseProcessProposal_ProposalStatus, err error) {
+		p.st.Count("c17.byzantine-commit.evals")
+		p.st.Bucket("c17|byzantine-commit|%s|flag=%s|%s", how, flag, st)
+		p.panics(c, "byzantine-commit:"+how)
+		if err != nil || st != abci.ResponseProcessProposal_ACCEPT {
+			return
+		}
+		var got app.VoteExtTx
+		if json.Unmarshal(first, &got) != nil {
+			return
+		}
+		for _, l := range [][]string{got.OpAndEVMAddrs.OperatorAddresses, got.ValsetSigs.OperatorAddresses, got.OracleAttestations.OperatorAddresses} {
+			for _, op := range l {
+				if op == victim {
+					c.Violate("C17", "proposal", "accepted-proposal-carries-bridge-data-of-a-vote-without-commit-flag:"+how, map[string]interface{}{"height": req.Height, "validator": victim, "flag": flag.String()})
+					return
+				}
+			}
+		}
+	}
+	// (a) the application's own PrepareProposal on the crafted commit
+	prep, err := c.App.PrepareProposal(&abci.RequestPrepareProposal{MaxTxBytes: 20_000_000, Txs: req.Txs[1:], LocalLastCommit: ec2, Height: req.Height, Time: req.Time,
+		ProposerAddress: req.ProposerAddress, NextValidatorsHash: req.NextValidatorsHash})
+	p.panics(c, "byzantine-commit:prepare")
+	if err == nil && len(prep.Txs) > 0 {
+		r2 := *req
+		r2.Txs = prep.Txs
+		r2.ProposedLastCommit = toCommitInfo(ec2)
+		res, err := c.App.ProcessProposal(&r2)
+		st := abci.ResponseProcessProposal_UNKNOWN
+		if err == nil {
+			st = res.Status
+		}
+		judge("prepared-by-app", prep.Txs[0], st, err)
+	}
+	// (b) the honest lists plus the victim's data, over the crafted commit
+	m := clone(orig)
+	m.ExtendedCommitInfo = ec2
+	switch p.r.Pick(3) {
+	case 0:
+		m.ValsetSigs.OperatorAddresses = append(m.ValsetSigs.OperatorAddresses, victim)
+		m.ValsetSigs.Timestamps = append(m.ValsetSigs.Timestamps, int64(ext.ValsetSignature.Timestamp))
+		m.ValsetSigs.Signatures = append(m.ValsetSigs.Signatures, hex.EncodeToString(ext.ValsetSignature.Signature))
+	case 1:
+		m.OracleAttestations.OperatorAddresses = append(m.OracleAttestations.OperatorAddresses, victim)
+		m.OracleAttestations.Attestations = append(m.OracleAttestations.Attestations, ext.OracleAttestations[0].Attestation)
+		m.OracleAttestations.Snapshots = append(m.OracleAttestations.Snapshots, ext.OracleAttestations[0].Snapshot)
+	default:
+		if evm, err := c.App.BridgeKeeper.EVMAddressFromSignatures(ctx, ext.InitialSignature.SignatureA, ext.InitialSignature.SignatureB); err == nil {
+			m.OpAndEVMAddrs.OperatorAddresses = append(m.OpAndEVMAddrs.OperatorAddresses, victim)
+			m.OpAndEVMAddrs.EVMAddresses = append(m.OpAndEVMAddrs.EVMAddresses, evm.Hex())
+		}
+	}
+	bz, _ := json.Marshal(m)
+	r3 := *req
+	r3.Txs = append([][]byte{bz}, req.Txs[1:]...)
+	r3.ProposedLastCommit = toCommitInfo(ec2)
+	res, err := c.App.ProcessProposal(&r3)
+	st := abci.ResponseProcessProposal_UNKNOWN
+	if err == nil {
+		st = res.Status
+	}
+	judge("lists-extended-by-hand", bz, st, err)
 }
 
 // finalizeUndecodable feeds FinalizeBlock a block whose injected first transaction is not decodable (a block an
